@@ -40,6 +40,10 @@ var fnTargets = []struct {
 	// functions over time.Time values (Go.Time, CM/Lib/GoLite): `time.Now()` is the parameter `now`
 	{"fileLockIsStale", "def fileLockIsStale (_ : Go.Time) (_ : lockMeta) : Bool := false", nil},
 	{"currentOCSP", "def currentOCSP (_ : Go.Time) (_ : ocsp_Response) : Bool := false", nil},
+	// pointers that the body compares with nil are Options; `x.f` on them goes through Go.deref
+	{"expiresAt", "def expiresAt (_ : Option x509_Certificate) : Go.Time := 0", nil},
+	{"certShouldBeForceRenewed", "def certShouldBeForceRenewed (_ : Certificate) : Bool := false", nil},
+	{"LooksLikeHTTPChallenge", "def LooksLikeHTTPChallenge (_ : http_Request) : Bool := false", nil},
 	{"SubjectQualifiesForCert", "def SubjectQualifiesForCert (_ : Str) : Bool := false", nil},
 	{"MatchWildcard", "def MatchWildcard (_ _ : Str) : Bool := false", nil},
 	{"SubjectIsInternal", "def SubjectIsInternal (_ : Str → Str) (_ : Str → Bool) (_ : Str) : Bool := false",
@@ -53,7 +57,29 @@ var fnStructs = map[string][][3]string{
 	"RingBufferRateLimiter": {{"window", "time.Duration", "Int"}, {"ring", "[]time.Time", "List τ"}, {"cursor", "int", "Int"}},
 	"lockMeta":              {{"Created", "time.Time", "Go.Time"}, {"Updated", "time.Time", "Go.Time"}},
 	// a type of another package: its fields cannot be checked against this repository's source
-	"ocsp.Response": {{"ThisUpdate", "time.Time", "Go.Time"}, {"NextUpdate", "time.Time", "Go.Time"}},
+	"ocsp.Response":    {{"ThisUpdate", "time.Time", "Go.Time"}, {"NextUpdate", "time.Time", "Go.Time"}, {"Status", "int", "Int"}},
+	"x509.Certificate": {{"NotAfter", "time.Time", "Go.Time"}},
+	"url.URL":          {{"Path", "string", "Str"}},
+	"http.Request":     {{"Method", "string", "Str"}, {"URL", "*url.URL", "url_URL"}},
+	"Certificate":      {{"Names", "[]string", "List Str"}, {"managed", "bool", "Bool"}, {"ocsp", "*ocsp.Response", "Option ocsp_Response"}},
+}
+
+// the order in which the structures are printed (a structure after those its fields mention)
+var fnStructOrder = []string{"RingBufferRateLimiter", "lockMeta", "ocsp.Response", "x509.Certificate", "url.URL", "http.Request", "Certificate"}
+
+// constants of other packages
+var fnForeignConsts = map[string]string{"http.MethodGet": "(Go.s \"GET\")", "ocsp.Good": "(0 : Int)", "ocsp.Revoked": "(1 : Int)", "ocsp.Unknown": "(2 : Int)"}
+
+// the struct (key of fnStructs) a Lean field type denotes, and whether it is behind a nilable pointer
+func fieldStruct(leanTy string) (string, bool) {
+	nilable := strings.HasPrefix(leanTy, "Option ")
+	t := strings.TrimPrefix(leanTy, "Option ")
+	for sn := range fnStructs {
+		if leanStructName(sn) == t {
+			return sn, nilable
+		}
+	}
+	return "", false
 }
 
 // structs whose time.Time fields are an abstract element type τ (everything else: Go.Time)
@@ -114,6 +140,40 @@ func checkStruct(p *pkgInfo, sn string) bool {
 	return false
 }
 
+func comparedWithNil(b *ast.BlockStmt, v string) bool {
+	found := false
+	ast.Inspect(b, func(n ast.Node) bool {
+		if be, ok := n.(*ast.BinaryExpr); ok && (be.Op == token.EQL || be.Op == token.NEQ) {
+			x, ok1 := be.X.(*ast.Ident)
+			y, ok2 := be.Y.(*ast.Ident)
+			if ok1 && ok2 && x.Name == v && y.Name == "nil" {
+				found = true
+			}
+		}
+		return true
+	})
+	return found
+}
+
+// static struct type of an expression (key of fnStructs) and whether the expression is a nilable pointer
+func (c *fnCtx) structOf(e ast.Expr) (string, bool) {
+	switch x := e.(type) {
+	case *ast.Ident:
+		return c.structVars[x.Name], c.nilVars[x.Name]
+	case *ast.SelectorExpr:
+		base, _ := c.structOf(x.X)
+		if base == "" {
+			return "", false
+		}
+		for _, f := range fnStructs[base] {
+			if f[0] == x.Sel.Name {
+				return fieldStruct(f[2])
+			}
+		}
+	}
+	return "", false
+}
+
 // does the body read the clock (time.Now / time.Since / time.Until)?
 func usesNow(b *ast.BlockStmt) bool {
 	found := false
@@ -160,6 +220,7 @@ type fnCtx struct {
 	opt     bool              // may panic: the result is an Option, `panic` is `none`
 	slices  map[string]bool   // locals known to be slices (made with `make([]T, n)`)
 	structVars map[string]string // parameters of a modelled struct type -> that type
+	nilVars    map[string]bool   // … that are pointers the body compares with nil (Options)
 	brk     bool              // the innermost loop contains `break` (its body yields Step3)
 }
 
@@ -188,12 +249,7 @@ func genFn(p *pkgInfo, l *leanFile) {
 	l.pf("import CM.Lib.GoLite\nset_option linter.unusedVariables false\nnamespace CM.Gen.Fn\nopen CM.Go\n\n")
 	tg := map[string]bool{}
 	var done []string
-	var snames []string
-	for sn := range fnStructs {
-		snames = append(snames, sn)
-	}
-	sort.Strings(snames)
-	for _, sn := range snames {
+	for _, sn := range fnStructOrder {
 		if !strings.Contains(sn, ".") && !checkStruct(p, sn) {
 			miss("struct " + sn + " no longer has the modelled fields with the expected types")
 		}
@@ -204,6 +260,9 @@ func genFn(p *pkgInfo, l *leanFile) {
 		}
 		for _, f := range fnStructs[sn] {
 			l.pf("  %s : %s\n", f[0], f[2])
+		}
+		if !fnGeneric[sn] {
+			l.pf("  deriving Inhabited\n")
 		}
 		l.pf("\n")
 	}
@@ -289,7 +348,7 @@ func trFunc(p *pkgInfo, fd *ast.FuncDecl, tg map[string]bool, externs [][2]strin
 			panic(r)
 		}
 	}()
-	c := &fnCtx{p: p, ranged: map[string]string{}, targets: tg, externs: map[string]bool{}, slices: map[string]bool{}, structVars: map[string]string{}}
+	c := &fnCtx{p: p, ranged: map[string]string{}, targets: tg, externs: map[string]bool{}, slices: map[string]bool{}, structVars: map[string]string{}, nilVars: map[string]bool{}}
 	var params []string
 	name := fd.Name.Name
 	generic := ""
@@ -309,11 +368,18 @@ func trFunc(p *pkgInfo, fd *ast.FuncDecl, tg map[string]bool, externs [][2]strin
 		c.recv = fd.Recv.List[0].Names[0].Name
 		name = c.recvTy + "_" + name
 		if !fnGeneric[c.recvTy] {
-			fnFail("methods of non-generic structs are not supported yet")
+			// a method that only reads its receiver: the receiver is an ordinary parameter
+			if fd.Type.Results == nil {
+				fnFail("methods of non-generic structs without a result are not supported")
+			}
+			params = append(params, fmt.Sprintf("(%s : %s)", lid(c.recv), leanStructName(c.recvTy)))
+			c.structVars[c.recv] = c.recvTy
+			c.recv = ""
+		} else {
+			genericTime = true
+			generic = "{τ : Type} [Inhabited τ] "
+			params = append(params, fmt.Sprintf("(%s : %s τ)", c.recv, c.recvTy))
 		}
-		genericTime = true
-		generic = "{τ : Type} [Inhabited τ] "
-		params = append(params, fmt.Sprintf("(%s : %s τ)", c.recv, c.recvTy))
 	}
 	c.opt = fnPanics(fd.Body)
 	switch {
@@ -334,11 +400,16 @@ func trFunc(p *pkgInfo, fd *ast.FuncDecl, tg map[string]bool, externs [][2]strin
 	}
 	for _, f := range fd.Type.Params.List {
 		for _, n := range f.Names {
-			params = append(params, fmt.Sprintf("(%s : %s)", lid(n.Name), leanType(f.Type)))
+			lt := leanType(f.Type)
 			t := f.Type
 			if st, ok := t.(*ast.StarExpr); ok {
 				t = st.X
+				if comparedWithNil(fd.Body, n.Name) {
+					lt = "Option " + lt
+					c.nilVars[n.Name] = true
+				}
 			}
+			params = append(params, fmt.Sprintf("(%s : %s)", lid(n.Name), lt))
 			if _, ok := fnStructs[types.ExprString(t)]; ok {
 				c.structVars[n.Name] = types.ExprString(t)
 			}
@@ -871,6 +942,9 @@ func (c *fnCtx) expr(e ast.Expr) string {
 				if n, ok := durationNs(v); ok {
 					return fmt.Sprintf("(%d : Int)", n)
 				}
+				if str, ok := strLit(v); ok {
+					return "(Go.s " + leanStr(str) + ")"
+				}
 			}
 		}
 		return lid(x.Name)
@@ -886,6 +960,11 @@ func (c *fnCtx) expr(e ast.Expr) string {
 			return "(" + x.Value + " : Int)"
 		}
 		fnFail("literal %s not supported", x.Value)
+	case *ast.CompositeLit:
+		if types.ExprString(x.Type) == "time.Time" && len(x.Elts) == 0 {
+			return "(0 : Go.Time)"
+		}
+		fnFail("composite literal %s not supported", types.ExprString(x.Type))
 	case *ast.ParenExpr:
 		return paren(c.expr(x.X))
 	case *ast.UnaryExpr:
@@ -894,6 +973,18 @@ func (c *fnCtx) expr(e ast.Expr) string {
 		}
 		fnFail("unary %s not supported", x.Op)
 	case *ast.BinaryExpr:
+		if n, ok := durationNs(x); ok {
+			return fmt.Sprintf("(%d : Int)", n)
+		}
+		if y, ok := x.Y.(*ast.Ident); ok && y.Name == "nil" && (x.Op == token.EQL || x.Op == token.NEQ) {
+			if _, nilable := c.structOf(x.X); !nilable {
+				fnFail("comparison with nil of something that is not a modelled nilable pointer")
+			}
+			if x.Op == token.EQL {
+				return "(Option.isNone " + paren(c.expr(x.X)) + ")"
+			}
+			return "(Option.isSome " + paren(c.expr(x.X)) + ")"
+		}
 		a, b := paren(c.expr(x.X)), paren(c.expr(x.Y))
 		switch x.Op {
 		case token.EQL:
@@ -923,6 +1014,30 @@ func (c *fnCtx) expr(e ast.Expr) string {
 		}
 		fnFail("binary %s not supported", x.Op)
 	case *ast.SelectorExpr:
+		if v, ok := fnForeignConsts[types.ExprString(x)]; ok {
+			return v
+		}
+		if id, ok := x.X.(*ast.Ident); ok && id.Name == "time" {
+			if n, ok := durationNs(x); ok {
+				return fmt.Sprintf("(%d : Int)", n)
+			}
+		}
+		if base, nilable := c.structOf(x.X); base != "" {
+			if _, direct := x.X.(*ast.Ident); !direct || nilable {
+				// a field reached through another field, or through a nilable pointer (Go.deref: Go
+				// panics on nil — only emitted where the source dereferences, i.e. behind its own guard)
+				for _, f := range fnStructs[base] {
+					if f[0] == x.Sel.Name {
+						be := paren(c.expr(x.X))
+						if nilable {
+							be = "(Go.deref " + be + ")"
+						}
+						return be + "." + x.Sel.Name
+					}
+				}
+				fnFail("field %s of %s is not modelled", x.Sel.Name, base)
+			}
+		}
 		if id, ok := x.X.(*ast.Ident); ok && c.structVars[id.Name] != "" {
 			for _, f := range fnStructs[c.structVars[id.Name]] {
 				if f[0] == x.Sel.Name {
@@ -997,7 +1112,7 @@ func (c *fnCtx) expr(e ast.Expr) string {
 				switch {
 				case f.Sel.Name == "IsZero" && len(args) == 0:
 					return "(Go.time_IsZero " + recvE + ")"
-				case (f.Sel.Name == "Before" || f.Sel.Name == "After" || f.Sel.Name == "Add" || f.Sel.Name == "Sub" || f.Sel.Name == "Equal") && len(args) == 1:
+				case (f.Sel.Name == "Before" || f.Sel.Name == "After" || f.Sel.Name == "Add" || f.Sel.Name == "Sub" || f.Sel.Name == "Equal" || f.Sel.Name == "Truncate") && len(args) == 1:
 					return "(Go.time_" + f.Sel.Name + " " + recvE + " " + args[0] + ")"
 				}
 				fnFail("call of a method or of package %v not supported", f.X)
